@@ -24,7 +24,7 @@
    programs with YieldFrom with the rewriter model applied to the lowered program on every run,
    and by the differential check with delegates that log their own steps. *)
 From Coq Require Import List.
-From Verif Require Import Base Syntax Sem Rewrite Side Delegate DelegateMain.
+From Verif Require Import Base Syntax Sem Rewrite Side Delegate DelegateMain Link LinkMachine.
 Import ListNotations.
 
 Theorem C05_yieldfrom_is_splice :
@@ -88,3 +88,34 @@ Proof. vm_compute. reflexivity. Qed.
 Example C05_hyps_hold_2 :
   c01_hyps (yf_stmt 1 2 3 4 :: [SFor None (Some 7) None [yf_stmt 8 9 10 11; SIf None 12 [SBreak] ENone]; SYield 5]) = true.
 Proof. vm_compute. reflexivity. Qed.
+
+(* ... and on the machine model of seq/seq.go: the consumer's MoveNext / Current loop over the generator
+   object of SeqMachine.v started on the compiled `YieldFrom(x); rest` does what the specification says
+   (side condition of Link.v: no native Yield left in the model output, computable) *)
+Theorem C05_machine_yieldfrom_partial :
+  forall (U V P : Type)
+         (aden : nat -> U -> outcome U P unit) (cden : nat -> U -> outcome U P bool)
+         (tden : nat -> U -> outcome U P nat) (kval : nat -> nat) (yden : nat -> U -> outcome U P V)
+         (env : nat -> V -> U -> U * bool) (zeroV : V)
+         (a_init a_cur c_mn y_v : nat)
+         (start : U -> outcome U P unit) (mn : U -> outcome U P bool) (curv : U -> V) (setv : U -> U),
+    (forall u, aden a_init u = start u) ->
+    (forall u, cden c_mn u = mn u) ->
+    (forall u, aden a_cur u = Ok (setv u) tt) ->
+    (forall u, yden y_v (setv u) = Ok (setv u) (curv u)) ->
+    forall rest : list stmt,
+      c01_hyps (yf_stmt a_init a_cur c_mn y_v :: rest) = true ->
+      exists out, rewrite (yf_stmt a_init a_cur c_mn y_v :: rest) = OK out /\
+        (forallb (lk KS) out = true ->
+         forall n u c,
+           yf_then U V P aden cden tden kval yden env start mn curv setv rest n u = Some c -> final_of c <> FStuck ->
+           exists M, forall N F, M <= N -> M <= F ->
+             machine_target U V P aden cden tden kval yden env zeroV KS out u N F = Some (final_of c)).
+Proof.
+  intros U V P aden cden tden kval yden env zeroV a_init a_cur c_mn y_v start mn curv setv H1 H2 H3 H4 rest Hh.
+  destruct (compiled_yieldfrom U V P aden cden tden kval yden env a_init a_cur c_mn y_v start mn curv setv H1 H2 H3 H4 rest Hh) as [out [Ho Hc]].
+  exists out. split; [exact Ho|]. intros Hlk n u c Hy Hns.
+  destruct (Hc n u c Hy Hns) as [m Hm].
+  exact (machine_link U V P aden cden tden kval yden env zeroV KS out m u (final_of c) Hlk Hm Hns).
+Qed.
+Print Assumptions C05_machine_yieldfrom_partial.
